@@ -5,7 +5,7 @@
    verdicts, protocol traces and the generated code itself); [subst1] is one simultaneous
    rewriting pass over the hint, at every nesting depth. *)
 From Coq Require Import List ZArith Bool.
-From BT Require Import Gen.ClassTable Core.PyVal Core.Expr Core.Hint Core.Check Core.GenProofs Core.Override Core.OverrideProofs.
+From BT Require Import Gen.ClassTable Gen.SignSets Core.PyVal Core.Expr Core.Hint Core.Check Core.GenProofs Core.Override Core.OverrideProofs.
 Import ListNotations.
 
 (* 1. hint_overrides: whenever the replacements are stable (rewriting inside a replacement,
@@ -58,11 +58,11 @@ Print Assumptions C18_chained_differs.
 
 (* Non-vacuity: the tower rewrites below a list, a mapping and a fixed tuple. *)
 Example C18_example :
-  subst1 tower_ov (HTuple [HCont 0 (HCls c_float); HMap 0 (HCls c_str) (HCls c_complex)])
-  = HTuple [HCont 0 (HUnion [HCls c_float; HCls c_int]);
-            HMap 0 (HCls c_str) (HUnion [HCls c_complex; HCls c_float; HCls c_int])]
-  /\ effective tower_ov (HCont 0 (HCls c_float)) = HCont 0 (HUnion [HCls c_float; HCls c_int])
-  /\ stable [(HCls c_int, HCont 0 (HCls c_int))].
+  subst1 tower_ov (HTuple [HCont s_List (HCls c_float); HMap m_Dict (HCls c_str) (HCls c_complex)])
+  = HTuple [HCont s_List (HUnion [HCls c_float; HCls c_int]);
+            HMap m_Dict (HCls c_str) (HUnion [HCls c_complex; HCls c_float; HCls c_int])]
+  /\ effective tower_ov (HCont s_List (HCls c_float)) = HCont s_List (HUnion [HCls c_float; HCls c_int])
+  /\ stable [(HCls c_int, HCont s_List (HCls c_int))].
 Proof.
   repeat split. intros k b [H|[]]. inversion H; subst. reflexivity.
 Qed.
